@@ -294,6 +294,24 @@ def run_solver(case):
                      'bs %r cf %r sensor %r: solver (%.9f, %.9f), Pose/atan2 (%.9f, %.9f)' % (bs_p[k].tolist(), cf_p[k].tolist(), sp[k].tolist(),
                                                                                          got[k][0], got[k][1], r[0], r[1]))
             break
+    # the solver's indexed entry point (one row per angle pair, poses looked up through index arrays), with as many rows as a long
+    # recording has: every row must still be the projection defined by the pose types
+    nrows = case.get('rows')
+    if nrows and hasattr(LighthouseGeometrySolver, '_poses_to_angle_pairs'):
+        idx = np.resize(np.arange(len(ref)), nrows)
+        big = LighthouseGeometrySolver._poses_to_angle_pairs(np.array(bs_p), np.array(cf_p), np.array(sp), idx, idx, idx, defs)
+        out.feat('indexed-batch-%d' % nrows)
+        out.nontrivial = True
+        big = np.asarray(big)
+        if big.shape[0] != nrows:
+            out.fail('solver:projection-mismatch:batch-shape', '%d rows asked for, %r returned' % (nrows, big.shape))
+        else:
+            for k in range(nrows):
+                r = ref[idx[k]]
+                if _ad(big[k][0], r[0]) > 1e-9 or _ad(big[k][1], r[1]) > 1e-9:
+                    out.fail('solver:projection-mismatch:long-batch', 'row %d of %d (pair %d): solver (%.9f, %.9f), Pose/atan2 (%.9f, %.9f)' % (
+                        k, nrows, idx[k], big[k][0], big[k][1], r[0], r[1]))
+                    break
     got2 = LighthouseGeometrySolver._calc_angle_pairs(np.array(bs_lib), np.array(cf_lib), np.array(sp), defs)
     for k, r in enumerate(ref):
         if _ad(got2[k][0], r[0]) > 1e-7 or _ad(got2[k][1], r[1]) > 1e-7:
@@ -325,7 +343,8 @@ def _anyrotvec(draw):
 
 _pair = st.fixed_dictionaries({'bs_r': _anyrotvec(), 'bs_t': st.lists(st.floats(-4, 4, allow_nan=False), min_size=3, max_size=3),
                                'cf_r': _anyrotvec(), 'cf_t': st.lists(st.floats(-2, 2, allow_nan=False), min_size=3, max_size=3)})
-solver_strategy = st.fixed_dictionaries({'pairs': st.lists(_pair, min_size=1, max_size=6)})
+solver_strategy = st.fixed_dictionaries({'pairs': st.lists(_pair, min_size=1, max_size=6),
+                                         'rows': st.sampled_from([None, None, None, None, 7, 1023, 1024, 1025, 1048, 2049, 4100])})
 
 
 def subchecks(tier):
